@@ -144,12 +144,30 @@ func sigResults(sig *types.Signature) []types.Type {
 // callUnknown: a callee without contract. Everything reachable may have been written; results are arbitrary.
 func (x *Exec) callUnknown(s *State, fr *Frame, key string, args []Value, sig *types.Signature, in ssa.Instruction) []Value {
 	x.havocked[shortFn(key)] = true
-	if len(x.spec.Frame) > 0 {
+	// Frame of a callee without contract: the objects reachable from its arguments by type (pointer, field,
+	// element, map key/value edges). An interface, function or channel in that closure means "anything".
+	var ats []types.Type
+	for _, a := range args {
+		if a.T != nil {
+			ats = append(ats, a.T)
+		}
+	}
+	reach, all := x.w.reachTypes(ats)
+	if len(x.spec.Frame) > 0 && (all || len(reach) > 0) {
 		// a callee without contract may write anything reachable, including shared state
 		x.oblige(s, "frame", fmt.Sprintf("frame@%s#%s", shortFn(fnKey(fr.fn)), x.siteOrdinal(fr.fn, in)), TFalse, x.spec.Frame, in.Pos(),
 			"call of "+shortFn(key)+" which has no contract (it may write shared state)")
 	}
-	x.havocAllHeap(s)
+	if all {
+		x.havocAllHeap(s)
+	} else {
+		x.assumed["uncontracted callees write only objects reachable from their arguments by type (no retained references, no unsafe)"] = true
+		m := newModSet()
+		for _, t := range reach {
+			m.addField(x.w, t, -1)
+		}
+		x.havocMods(s, fr, m, nil)
+	}
 	for _, a := range args {
 		if a.Loc != nil && a.Loc.Cell != nil {
 			s.cellVal[a.Loc.Cell] = x.freshValue(s, a.Loc.Cell.T, "havoc."+a.Loc.Cell.Name)
@@ -198,9 +216,13 @@ func (x *Exec) callBuiltin(s *State, fr *Frame, b *ssa.Builtin, args []Value, c 
 		a := args[0]
 		switch u := types.Unalias(a.T).Underlying().(type) {
 		case *types.Slice:
-			return []Value{{T: types.Typ[types.Int], Term: x.w.SlLen(a.Term)}}
+			ln := x.w.SlLen(a.Term)
+			s.assume(Le(ln, lenBound)) // a value that exists at run time: address-space bound (assumption)
+			return []Value{{T: types.Typ[types.Int], Term: ln}}
 		case *types.Basic:
-			return []Value{{T: types.Typ[types.Int], Term: x.w.Reg.Apply("strlen", a.Term)}}
+			ln := x.w.Reg.Apply("strlen", a.Term)
+			s.assume(Le(ln, lenBound))
+			return []Value{{T: types.Typ[types.Int], Term: ln}}
 		case *types.Array:
 			return []Value{{T: types.Typ[types.Int], Term: IntT(u.Len())}}
 		case *types.Map:
@@ -458,3 +480,68 @@ func (x *Exec) callSpec(s *State, fr *Frame, spec *FuncSpec, key string, args []
 }
 
 var _ = token.NoPos
+
+// reachTypes returns the pointee types (struct, cell and map types that own heap arrays) reachable from values of
+// the given types, and all=true when the closure contains an interface, function or channel type (dynamic types
+// unknown: anything may be reached).
+func (w *World) reachTypes(ts []types.Type) ([]types.Type, bool) {
+	seen := map[string]bool{}
+	var out []types.Type
+	all := false
+	var walk func(t types.Type, pointee bool)
+	walk = func(t types.Type, pointee bool) {
+		if all {
+			return
+		}
+		t = types.Unalias(t)
+		id := types.TypeString(t, nil)
+		if pointee {
+			id = "*" + id
+		}
+		if seen[id] {
+			return
+		}
+		seen[id] = true
+		if pointee {
+			out = append(out, t)
+		}
+		switch u := t.Underlying().(type) {
+		case *types.Basic:
+			if u.Kind() == types.UnsafePointer {
+				all = true
+			}
+		case *types.Pointer:
+			walk(u.Elem(), true)
+		case *types.Struct:
+			for i := 0; i < u.NumFields(); i++ {
+				walk(u.Field(i).Type(), false)
+			}
+		case *types.Slice:
+			walk(u.Elem(), false)
+		case *types.Array:
+			walk(u.Elem(), false)
+		case *types.Map:
+			if !pointee {
+				walk(t, true)
+				return
+			}
+			walk(u.Key(), false)
+			walk(u.Elem(), false)
+		case *types.Interface, *types.Signature, *types.Chan:
+			all = true
+		case *types.Tuple:
+			for i := 0; i < u.Len(); i++ {
+				walk(u.At(i).Type(), false)
+			}
+		default:
+			all = true
+		}
+	}
+	for _, t := range ts {
+		walk(t, false)
+	}
+	if all {
+		return nil, true
+	}
+	return out, false
+}
